@@ -78,3 +78,7 @@ Proof.
   intros Hl Hc Hv. unfold tagfree, render_line. rewrite no_char_app, (no_lg_no_lt _ (closed_copy_nolg tb l Hl Hc Hv)). reflexivity.
 Qed.
 
+
+Lemma forallb_impl {A} (f g : A -> bool) l : (forall x, f x = true -> g x = true) -> forallb f l = true -> forallb g l = true.
+Proof. intros H. induction l as [|x l IH]; [reflexivity|]. cbn [forallb]. intros K. apply andb_prop in K as [K1 K2]. rewrite (H x K1), (IH K2). reflexivity. Qed.
+
